@@ -156,6 +156,8 @@ class Interp:
         self.sign_mode = "bool"       # bool | sign | sign+nan
         self.nanable = lambda sym: False
         self.default_fact = None      # callable(key) -> pinned value | None
+        self.while_bound = None       # iterations of a `while` before the path is abandoned
+        self.positive_syms = set()    # symbols known to be > 0 (lengths of non-empty things)
         self.transform_mode = "uninterpreted"   # or "identity"
         self.ext_quiet = lambda tag: "logger" in tag or tag.startswith("logging")
         self.globals_cache = {}
@@ -306,11 +308,29 @@ class Interp:
             return Num(Poly.const(int(v.v)), True)
         return None
 
+    def definite_sign(self, p: Poly):
+        """Sign of p when it follows from the positivity of its symbols alone."""
+        if not p.terms:
+            return 0
+        if not self.positive_syms:
+            return None
+        signs = set()
+        for m, c in p.terms.items():
+            if any(s not in self.positive_syms or e < 0 or e % 1 for s, e in m):
+                return None
+            signs.add(c > 0)
+        if len(signs) == 1:
+            return 1 if signs.pop() else -1
+        return None
+
     def sign(self, p: Poly):
         """-1, 0, 1 for the sign of p; None when unordered (NaN)."""
         if p.is_const():
             c = p.const_value()
             return (c > 0) - (c < 0)
+        ds = self.definite_sign(p)
+        if ds is not None:
+            return ds
         lead = p.terms[min(p.terms)]
         flip = lead < 0
         q = -p if flip else p
@@ -325,7 +345,7 @@ class Interp:
 
     def num_compare(self, a: Poly, op, b: Poly) -> bool:
         d = a - b
-        if d.is_const() or self.sign_mode != "bool":
+        if d.is_const() or self.sign_mode != "bool" or self.definite_sign(d) is not None:
             s = self.sign(d)
             if s is None:
                 return isinstance(op, ast.NotEq)
@@ -384,6 +404,8 @@ class Interp:
             return self.decide("nonempty:" + repr(v), [True, False])
         if isinstance(v, Bytes):
             return self.truth(v.s)
+        if isinstance(v, BV):
+            return len(v.parts) > 0
         if isinstance(v, Unk):
             return self.decide("truth:" + v.tag, [True, False])
         return self.decide("truth:" + repr(v), [True, False])
@@ -638,6 +660,51 @@ class Interp:
             return Const("".join(p.text for p in out))
         return Str(tuple(out))
 
+    def as_bv(self, v):
+        if isinstance(v, BV):
+            return v
+        if isinstance(v, Const) and isinstance(v.v, bytes) and v.v == b"":
+            return BV(())
+        if isinstance(v, Const) and isinstance(v.v, bytes) and v.v == b"\n":
+            return BV((BNL(),))
+        return None
+
+    def bv_len(self, parts) -> Poly:
+        p = Poly()
+        for x in parts:
+            if isinstance(x, BNL):
+                p = p + Poly.const(1)
+            else:
+                p = p + Poly.sym(f"len({x.name})") - Poly.const(x.lo + x.hi)
+        return p
+
+    def bv_split(self, parts, pos: Poly):
+        """Split `parts` at byte offset `pos` -> (left, right), or None when the offset is
+        neither at a part boundary nor a constant number of bytes from one."""
+        acc = Poly()
+        for i, x in enumerate(parts):
+            if (pos - acc).is_zero():
+                return tuple(parts[:i]), tuple(parts[i:])
+            nxt = acc + self.bv_len((x,))
+            if isinstance(x, BSeg) and not (pos - nxt).is_zero():
+                d1, d2 = pos - acc, nxt - pos
+                if d1.is_const() and d1.const_value() > 0 and d1.const_value().denominator == 1:
+                    k = int(d1.const_value())
+                    # (for a segment longer than k bytes: one such input suffices to expose a wrong cut)
+                    self.positive_syms.update({f"len({x.name}<:{k}>)", f"len({x.name}<{k}:>)"})
+                    return tuple(parts[:i]) + (BSeg(f"{x.name}<:{k}>"),), (BSeg(f"{x.name}<{k}:>"),) + tuple(parts[i + 1:])
+                if d2.is_const() and d2.const_value() > 0 and d2.const_value().denominator == 1:
+                    k = int(d2.const_value())
+                    self.positive_syms.update({f"len({x.name}<:-{k}>)", f"len({x.name}<-{k}:>)"})
+                    return tuple(parts[:i]) + (BSeg(f"{x.name}<:-{k}>"),), (BSeg(f"{x.name}<-{k}:>"),) + tuple(parts[i + 1:])
+            acc = nxt
+        if (pos - acc).is_zero():
+            return tuple(parts), ()
+        d = pos - acc
+        if d.is_const() and d.const_value() > 0:
+            return tuple(parts), ()        # slicing past the end
+        return None
+
     def as_str(self, v):
         """Str view of a string-like value (or None)."""
         if isinstance(v, Str):
@@ -867,6 +934,10 @@ class Interp:
                 return Num(app(type(op).__name__.lower(), na.p, nb.p))
             except ZeroDivisionError:
                 self.raise_("ZeroDivisionError", node)
+        if isinstance(op, ast.Add):
+            ba, bb = self.as_bv(a), self.as_bv(b)
+            if ba is not None and bb is not None and (isinstance(a, BV) or isinstance(b, BV)):
+                return BV(ba.parts + bb.parts)
         # string concatenation / formatting
         sa, sb = self.as_str(a), self.as_str(b)
         if isinstance(op, ast.Add) and sa is not None and sb is not None:
@@ -913,6 +984,30 @@ class Interp:
     def getslice(self, base, lo, hi, st, node):
         base = self.force(base)
         items = None
+        if isinstance(base, BV):
+            parts = base.parts
+            total = self.bv_len(parts)
+            def pos(v, default):
+                if isinstance(v, Const) and v.v is None:
+                    return default
+                n = self.as_num(v)
+                if n is None:
+                    return None
+                p = n.p
+                if p.is_const() and p.const_value() < 0:
+                    p = total + p
+                return p
+            plo, phi = pos(lo, Poly()), pos(hi, total)
+            hi_default = isinstance(hi, Const) and hi.v is None
+            if plo is not None and phi is not None:
+                a = self.bv_split(parts, plo)
+                if a is not None:
+                    if hi_default:
+                        return BV(a[1])
+                    b = self.bv_split(a[1], phi - plo)
+                    if b is not None:
+                        return BV(b[0])
+            return Unk(self.fresh(f"byteslice({base!r})"), "bytes")
         if isinstance(base, (Tup, NT, ArrV)):
             items = list(base.items)
         elif isinstance(base, Ref) and isinstance(self.deref(base), AList) and self.deref(base).items is not None:
@@ -1318,6 +1413,8 @@ class Interp:
         if isinstance(b, (Str, Bytes)) or (isinstance(b, Const) and isinstance(b.v, (str, bytes))):
             return BoundBuiltin(b, attr)
         if isinstance(b, Tup):
+            return BoundBuiltin(b, attr)
+        if isinstance(b, BV):
             return BoundBuiltin(b, attr)
         if isinstance(b, (MatProd, ArrV)):
             if attr in ("shape", "size", "ndim", "T", "dtype"):
@@ -1829,7 +1926,7 @@ class Interp:
         broke = False
         while self.truth(self.eval(s.test, fr)):
             n += 1
-            if n > max(2, self.loop_unroll + 1):
+            if n > (self.while_bound or max(2, self.loop_unroll + 1)):
                 raise PathAbort()
             try:
                 self.exec_block(s.body, fr)
